@@ -223,7 +223,7 @@ func c18rank(p *Prog, r *Report) {
 	_ = two
 	n := qaIdent()
 	half, _ := qaRound(qaScale(n, big.NewRat(1, 2)), "floor") // floor(l/2)
-	parity := qaSub(n, qaScale(half, rat(2)))                  // l mod 2
+	parity := qaSub(n, qaScale(half, rat(2)))                 // l mod 2
 	isEven, _ := qaCmp(parity, qaConst(rat(0)), token.EQL)
 	isOdd, _ := qaCmp(parity, qaConst(rat(1)), token.EQL)
 	// path condition of each read: conjunction of literals on the path (must-facts), evaluated in the domain
